@@ -64,10 +64,10 @@ def quotient(g, comps):
     return q, owner
 
 
-def render_coarse(g, nodes, names, descr):
+def render_coarse(g, nodes, names, descr, start=None):
     """CGsmiles text of the sub-graph `nodes` of the named graph g with descriptors descr[node] = [(text, order)]"""
     sub = g.subgraph(nodes)
-    start = min(nodes)
+    start = min(nodes) if start is None or start not in nodes else start
     tree = {}
     seen = []
 
@@ -102,7 +102,7 @@ def render_coarse(g, nodes, names, descr):
     return emit(start)
 
 
-def level_block(g, names, comps, gnames, kind_of, share=None):
+def level_block(g, names, comps, gnames, kind_of, share=None, share_first=False):
     """fragment block defining each group (name gnames[i]) as coarse fragment of its members.
     share = index of a crossing edge that is expressed by sharing its second end node (squash operator)
     instead of a bond."""
@@ -113,6 +113,7 @@ def level_block(g, names, comps, gnames, kind_of, share=None):
     names2 = dict(names)
     comps2 = [list(c) for c in comps]
     idx = 0
+    starts = {}
     for a, b, d in sorted(q.edges(data=True)):
         for u, v, o in d['cross']:
             L = M.LABELS[lab % 26] + (str(lab // 26) if lab >= 26 else '')
@@ -128,6 +129,10 @@ def level_block(g, names, comps, gnames, kind_of, share=None):
                 comps2[owner[u]].append(w)
                 descr.setdefault(w, []).append(('!' + L, 1))
                 descr.setdefault(v, []).append(('!' + L, 1))
+                if share_first:
+                    # the shared node is written first in both fragments
+                    starts[owner[u]] = w
+                    starts[owner[v]] = v
             else:
                 k = kind_of(lab)
                 tu, tv = (('$' + L, '$' + L) if k == '$' else ('>' + L, '<' + L))
@@ -136,7 +141,7 @@ def level_block(g, names, comps, gnames, kind_of, share=None):
             idx += 1
     defs = []
     for i, c in enumerate(comps2):
-        defs.append('#%s=%s' % (gnames[i], render_coarse(g2, list(c), names2, descr)))
+        defs.append('#%s=%s' % (gnames[i], render_coarse(g2, list(c), names2, descr, start=starts.get(i))))
     return '{' + ','.join(defs) + '}', q
 
 
@@ -145,7 +150,7 @@ def n_cross(g, comps):
     return sum(len(d['cross']) for _, _, d in q.edges(data=True))
 
 
-def build_strings(bottom, names, groupings, atom_block=None, kind='$', share=None, reuse_names=False):
+def build_strings(bottom, names, groupings, atom_block=None, kind='$', share=None, reuse_names=False, share_first=False):
     """bottom: named graph (level-1 nodes with edge 'order'); groupings: list of partitions, each over the node set of
     the previous quotient.  share=(level index, crossing edge index) expresses that crossing edge by a shared node.
     Returns (layered string, flattened string, number of levels)."""
@@ -160,8 +165,11 @@ def build_strings(bottom, names, groupings, atom_block=None, kind='$', share=Non
             gn = {i: nm[min(c)] for i, c in enumerate(comps)}
         else:
             gn = {i: 'L%dG%d' % (lvl, i) for i in range(len(comps))}
-        sh = share[1] if (share is not None and share[0] == lvl - 1) else None
-        blk, q = level_block(g, nm, comps, gn, kind_of, share=sh)
+        sh = None
+        if share is not None:
+            shd = dict(share) if not isinstance(share[0], int) else {share[0]: share[1]}
+            sh = shd.get(lvl - 1)
+        blk, q = level_block(g, nm, comps, gn, kind_of, share=sh, share_first=share_first)
         blocks.append(blk)
         g, nm = q, gn
     top = M.base_string(_named(g, nm))[0]
@@ -274,6 +282,16 @@ def cases(task, R):
             for ci, (u, v, o) in enumerate(cross0):
                 if o == 1:
                     variants.append(dict(kind='$', share=(0, ci)))
+                    variants.append(dict(kind='$', share=(0, ci), share_first=True))
+            # shared nodes at two consecutive levels (the second grouping is over the first quotient)
+            if len(prefix) >= 2:
+                q1, _ = quotient(q0, prefix[1])
+                cross1 = [c for _, _, d in sorted(q1.edges(data=True)) for c in d['cross']]
+                for ci, (u, v, o) in enumerate(cross0):
+                    for cj, (u1, v1, o1) in enumerate(cross1):
+                        if o == 1 and o1 == 1:
+                            variants.append(dict(kind='$', share=((0, ci), (1, cj))))
+                            variants.append(dict(kind='$', share=((0, ci), (1, cj)), share_first=True))
             for var in variants:
                 built = build_strings(g, names, prefix, atom_block, **var)
                 if built is None:
